@@ -297,7 +297,7 @@ impl Family for B1 {
             Tier::Thorough => 12,
         }
     }
-    fn generate(&self, rng: &mut Rng, tier: Tier, _idx: u64) -> Scn {
+    fn generate(&self, rng: &mut Rng, tier: Tier, idx: u64) -> Scn {
         let op = match rng.below(10) {
             0..=2 => Op::Encrypt,
             3..=5 => Op::Decrypt,
@@ -386,6 +386,49 @@ impl Family for B1 {
         for w in scn.wirings.iter_mut() {
             w.typed_pass = crate::rng::splitmix(&mut t) % 4 == 0;
             w.stdin_tty = w.in_file && crate::rng::splitmix(&mut t) % 3 == 0;
+        }
+        // damaged files: half of them have three chunks (so that the damage can sit behind chunks that are
+        // released first), and half are also presented in a fully interactive session - file argument,
+        // terminal on stdin, password typed at the prompt (derived from the seed, not drawn)
+        if matches!(scn.material, Material::CorruptInput(_) | Material::TruncatedInput(_) | Material::ExtendedInput(_)) {
+            if (scn.seed >> 8) % 2 == 0 {
+                scn.plain.len = 2 * 65536 + (scn.seed % 1000) as usize;
+                if let Some(n) = scn.prior_output_len.as_mut() {
+                    *n = (*n).max(scn.plain.len + 200);
+                }
+            }
+            if (scn.seed >> 7) % 2 == 0 {
+                if let Some(w) = scn.wirings.first_mut() {
+                    w.in_file = true;
+                    w.in_fifo = false;
+                    w.typed_pass = true;
+                    w.stdin_tty = true;
+                }
+            }
+        }
+        // the first twelve scenarios of every run are a grid: {key, password} decryption x {a flipped bit in
+        // the last chunk, a cut inside the last chunk, stray bytes behind it} x {scripted, fully interactive},
+        // always on a three-chunk file - damage behind chunks that have been released
+        if idx < 12 {
+            scn.op = if idx % 2 == 0 { Op::Decrypt } else { Op::PassDecrypt };
+            scn.material = match (idx / 2) % 3 {
+                0 => Material::CorruptInput(900 + (scn.seed % 90) as u32),
+                1 => Material::TruncatedInput(850 + (scn.seed % 140) as u32),
+                _ => Material::ExtendedInput(1 + (scn.seed % 40) as u32),
+            };
+            scn.lookalike_sender = false;
+            scn.self_addressed = false;
+            scn.plain.len = 2 * 65536 + 1 + (scn.seed % 1000) as usize;
+            if let Some(n) = scn.prior_output_len.as_mut() {
+                *n = (*n).max(scn.plain.len + 200);
+            }
+            if let Some(w) = scn.wirings.first_mut() {
+                w.in_file = true;
+                w.in_fifo = false;
+                let interactive = idx >= 6;
+                w.typed_pass = interactive;
+                w.stdin_tty = interactive;
+            }
         }
         scn
     }
